@@ -550,6 +550,54 @@ def property_oracle(case):
     return None
 
 
+def addition_case(i_seed):
+    """typed additions (Options(addition=<type>)): whatever mutator stores an unknown key, the stored value is what the
+    constructor would have stored (the converted value); a value the type rejects changes nothing"""
+    import utype
+    from utype.utils.transform import type_transform
+    from typing import List
+    warnings.simplefilter("ignore")
+    rng = random.Random(i_seed)
+    t = dyn.fresh("Ad")
+    ty = rng.choice(["int", "float", "List[int]", "PositiveInt"])
+    src = "class %s(Schema):\n    __options__ = Options(addition=%s)\n    a: int = 0\n" % (t, ty)
+    dyn.declare(src)
+    K = dyn.get(t)
+    T = K.__parser__.addition_type
+    s = K()
+    for n in range(rng.randint(1, 5)):
+        key = rng.choice(["x", "y", "z"])
+        v = rng.choice([1, "2", 3.0, "bad", None, ["4", 5], 0, -1, "7"])
+        how = rng.choice(["item", "update", "setdefault", "ior"])
+        before = dict(s)
+        try:
+            want = ("ok", type_transform(v, T))
+        except Exception:
+            want = ("bad",)
+        present = key in s
+        try:
+            if how == "item": s[key] = v
+            elif how == "update": s.update({key: v})
+            elif how == "setdefault": s.setdefault(key, v)
+            else: s.__ior__({key: v})
+            raised = False
+        except Exception:
+            raised = True
+        if how == "setdefault" and present:
+            if dict(s) != before:
+                return "%s\nstep %d setdefault(%r, %r) on a present key changed the data: %r -> %r" % (src, n, key, v, before, dict(s))
+            continue
+        if want[0] == "bad":
+            if not raised or dict(s) != before:
+                return "%s\nstep %d %s %r=%r: the addition type rejects the value, but %s and the data went %r -> %r" % (
+                    src, n, how, key, v, "nothing was raised" if not raised else "it raised", before, dict(s))
+        else:
+            got = dict.get(s, key, "<absent>")
+            if raised or repr(got) != repr(want[1]):
+                return "%s\nstep %d %s %r=%r: stored %r, the constructor would store %r" % (src, n, how, key, v, "<raised>" if raised else got, want[1])
+    return ("ok", ty)
+
+
 def main(tier, seed):
     warnings.simplefilter("ignore")
     res = core.Result(PID, tier, seed)
@@ -586,6 +634,13 @@ def main(tier, seed):
         for c, o in mism[:3]:
             res.violations.append(dict(case=repr(dict(src=srcs[c["cls"]], data=c["data"], ops=c["ops"])), observed=repr(o)[:800],
                                        what="the implementation departs from the instance model that is proved to keep the invariant"))
+    aouts = core.pool_map(addition_case, [seed * 1000211 + i for i in range(1500 if tier == "quick" else 25000)])
+    abad = [o for o in aouts if isinstance(o, str)]
+    res.add_suite("typed-additions", len(aouts), len(aouts), ["seeded: Schema with Options(addition=int / float / List[int] / PositiveInt)"],
+                  "unknown keys stored through item assignment, update, setdefault and |= on a class with a typed addition: the stored "
+                  "value is the converted one (what the constructor stores), a rejected value changes nothing", dict(failures=len(abad)))
+    for o in abad[:3]:
+        res.violations.append(dict(case=repr(dict(kind="typed-addition")), observed=o, what=o))
     return core.finish(res, "make -C coq Props/C07.vo && coqc (Print Assumptions audit)", "see suites", search=None,
                        level_note="the invariant theorem is about Model/Schema.v (tied by the mutations suite); @property fields and "
                                   "their dependants, runtime options different from the class options, typed additions and plain "
